@@ -116,6 +116,10 @@ def run(db, chk) -> None:
     _predicates(db, chk, m, preds, DFb)
     _composite(db, chk, m)
     _string_detection(db, chk)
+    for q, f_ in m.functions.items():
+        sm = H.shared_state_mutations(m, f_)
+        if sm or q.endswith("__call__") or "." not in q:
+            chk.ob("C18.R1-purity", f"{q}: no state kept in module- or class-level containers", not sm, m.loc(f_), found=sm, accepted="none", why="a filter whose result depends on earlier calls is not a pure row selection")
 
 
 def _sel(preds, cls, symtab):
@@ -173,7 +177,7 @@ def _predicates(db, chk, m, preds, DF):
            accepted="df['name'].isin(ids of symbols matching pattern)")
     # side predicates as decision tables
     from .c02 import _side_leaf, ES, CS, OTHER
-    grid = [dict(stream=s, correlation=c, name=n) for s in (-1, 7) for c in (-1, 0, 5) for n in (ES, CS, OTHER)]
+    grid = [dict(stream=s, correlation=c, name=n) for s in (-1, 0, 7) for c in (-1, 0, 5) for n in (ES, CS, OTHER)]
     for cls, want in (("GPUKernelFilter", True), ("CPUOperatorFilter", False)):
         got = _sel(preds, cls, True)
         bad = []
